@@ -200,38 +200,30 @@ class LazyEvaluatedKernelTensor(LinearOperator):
         else:
             dim_index = _noop_index
 
+        # Are we explicitly indexing batch dimensions?
+        indexes_batch = not (len(batch_indices) == 0 or all(ind == slice(None, None, None) for ind in batch_indices))
+
         # Get the indices of x1 and x2 that matter for the kernel
-        # Call x1[*batch_indices, row_index, :]
-        try:
-            x1 = x1[(*batch_indices, row_index, dim_index)]
-        # We're going to handle multi-batch indexing with a try-catch loop
-        # This way - in the default case, we can avoid doing expansions of x1 which can be
-        # costly in terms of time
-        except IndexError:
-            x1 = x1.expand(*batch_shape, *x1.shape[-2:])
-            x1 = x1[(*batch_indices, row_index, dim_index)]
-
-        # Call x2[*batch_indices, col_index, :]
-        try:
-            x2 = x2[(*batch_indices, col_index, dim_index)]
-        # We're going to handle multi-batch indexing with a try-catch loop
-        # This way - in the default case, we can avoid doing expansions of x2 which can be
-        # costly in terms of time
-        except IndexError:
-            x2 = x2.expand(*batch_shape, *x2.shape[-2:])
-            x2 = x2[(*batch_indices, col_index, dim_index)]
-
-        if len(batch_indices) == 0 or all(ind == slice(None, None, None) for ind in batch_indices):
+        # Call x1[*batch_indices, row_index, :] and x2[*batch_indices, col_index, :]
+        if not indexes_batch:
+            x1 = x1[(..., row_index, dim_index)]
+            x2 = x2[(..., col_index, dim_index)]
             new_kernel = self.kernel  # Avoid unnecessary copying when we aren't explicitly indexing batch dims
         else:
-            try:
-                new_kernel = self.kernel.__getitem__(batch_indices)
-            # We're going to handle multi-batch indexing with a try-catch loop
-            # This way - in the default case, we can avoid doing expansions of self.kernel which can be
-            # costly in terms of time
-            except IndexError:
-                expanded_kernel = self.kernel.expand_batch(batch_shape)
-                new_kernel = expanded_kernel.__getitem__(batch_indices)
+            # Since kernels can broadcast, x1, x2 and the kernel may lack (or have size 1 in) batch dimensions
+            # that are being indexed. In that case we expand them to the broadcasted batch shape first.
+            # (Indexing the un-expanded objects is not an option: a slice of a broadcasted dimension can come out
+            # empty, and surplus indices reach into the non-batch dimensions of the kernel parameters.)
+            if x1.shape[:-2] != batch_shape:
+                x1 = x1.expand(*batch_shape, *x1.shape[-2:])
+            if x2.shape[:-2] != batch_shape:
+                x2 = x2.expand(*batch_shape, *x2.shape[-2:])
+            x1 = x1[(*batch_indices, row_index, dim_index)]
+            x2 = x2[(*batch_indices, col_index, dim_index)]
+            kernel = self.kernel
+            if len(kernel.batch_shape) and kernel.batch_shape != batch_shape:
+                kernel = kernel.expand_batch(batch_shape)
+            new_kernel = kernel.__getitem__(batch_indices)
 
         # Now construct a kernel with those indices
         return self.__class__(
